@@ -350,4 +350,84 @@ example : (evalZ false 4 (.v 0) (.bin .sub (.zv 0) (.bin .mul (.zv 1) (.zv 0)))
 -- an exception of the temporaries semantics is an exception of the strategy: `z0 = z1 / (z0 - z0)`
 example : evalZ true 4 (.v 0) (.bin .div (.zv 1) (.bin .sub (.zv 0) (.zv 0))) (fun _ => 3) = none := by decide
 
+
+/-! ### comparisons, `cmp`, `sgn` on mpz-typed operands -/
+
+def Opnd.zOk (K : Nat) : Opnd → Prop
+  | .ex e => e.ty = .z ∧ e.wt = true ∧ e.zbelow K
+  | .bi c => c.ok = true
+
+theorem opndRat_ex_z (h : Heap) (e : E) (hty : e.ty = .z) :
+    opndRat h.abs (.ex e) = (evalTmpZ (fun i => h (.v i)) e).map fun x => ((x : Int) : Rat) := by
+  simp only [opndRat, evalTmp_z _ e hty, Option.map_map]
+  rfl
+
+/-- **Comparisons equal the C comparison of the temporaries** (`== != < <= > >=`, `cmp`; mpz-typed
+    operands and built-ins on either side): the `const&` binding strategy (no temporary for an
+    `mpz_class` operand, one temporary per expression operand) followed by the
+    `__gmp_binary_equal/less/greater/__gmp_cmp_function` overload gives exactly
+    `execTmp (.cmp o a b)`, including raising when an operand raises. -/
+theorem cmp_eval_correct_z (cst : Bool) (K : Nat) (o : Cmp) (a b : Opnd) (h : Heap)
+    (ha : a.zOk K) (hb : b.zOk K) (hab : ¬(∃ c c', a = .bi c ∧ b = .bi c')) :
+    (execCmpZ cst K o a b h).map Res.int = execTmp h.abs (.cmp o a b) := by
+  have B := bindZ_correct cst (evalZ_correct cst)
+  cases a with
+  | ex ea =>
+    obtain ⟨hta, hwa, hba⟩ := ha
+    have Ba := B ea hta hwa K h hba
+    cases b with
+    | ex eb =>
+      obtain ⟨htb, hwb, hbb⟩ := hb
+      simp only [execCmpZ, execTmp, opndRat_ex_z h ea hta, opndRat_ex_z h eb htb]
+      cases hra : evalTmpZ (fun i => h (.v i)) ea with
+      | none => rw [hra] at Ba; simp [Ba]
+      | some x =>
+        rw [hra] at Ba
+        obtain ⟨la, h1, e1, hx, hla, hfr1⟩ := Ba
+        have hag : ∀ i, i < K → h1 (.v i) = h (.v i) := fun i hi => hfr1 _ (by simpa [ZLoc.below] using hi)
+        have Bb := B eb htb hwb (K + 1) h1 (E.zbelow_mono (by omega) _ hbb)
+        rw [evalTmpZ_frame (k := K) hag eb hbb] at Bb
+        simp only [e1, Option.bind_some]
+        cases hrb : evalTmpZ (fun i => h (.v i)) eb with
+        | none => rw [hrb] at Bb; simp [Bb]
+        | some y =>
+          rw [hrb] at Bb
+          obtain ⟨lb, h2, e2, hy, _, hfr2⟩ := Bb
+          simp only [e2, Option.bind_some]
+          rw [fnCmpZ_spec o _ _ h2 (by simp [ZArg.isBi])]
+          simp [argQ, hy, hfr2 la hla, hx]
+    | bi c =>
+      simp only [execCmpZ, execTmp, opndRat_ex_z h ea hta]
+      simp only [opndRat]
+      cases hra : evalTmpZ (fun i => h (.v i)) ea with
+      | none => rw [hra] at Ba; simp [Ba]
+      | some x =>
+        rw [hra] at Ba
+        obtain ⟨la, h1, e1, hx, hla, hfr1⟩ := Ba
+        simp only [e1, Option.bind_some]
+        rw [fnCmpZ_spec o _ _ h1 (by simp [ZArg.isBi])]
+        simp only [argQ, hx, Option.bind_some, Option.map_some]
+        cases biRat c <;> simp
+  | bi c =>
+    cases b with
+    | bi c' => exact absurd ⟨c, c', rfl, rfl⟩ hab
+    | ex eb =>
+      obtain ⟨htb, hwb, hbb⟩ := hb
+      have Bb := B eb htb hwb K h hbb
+      simp only [execCmpZ, execTmp, opndRat_ex_z h eb htb]
+      simp only [opndRat]
+      cases hrb : evalTmpZ (fun i => h (.v i)) eb with
+      | none => rw [hrb] at Bb; simp only [Bb]; cases biRat c <;> simp
+      | some y =>
+        rw [hrb] at Bb
+        obtain ⟨lb, h1, e1, hy, _, hfr1⟩ := Bb
+        simp only [e1, Option.bind_some]
+        rw [fnCmpZ_spec o _ _ h1 (by simp [ZArg.isBi])]
+        simp only [argQ, hy]
+        cases biRat c <;> simp
+
+-- non-vacuity: `(z0 + z1) < 2.5` with z0 = 1, z1 = 1 is true (mpz_cmp_d does not truncate the double); `-3 > z0 * z1`
+example : execCmpZ false 4 .lt (.ex (.bin .add (.zv 0) (.zv 1))) (.bi (.d 0x4004000000000000)) (fun _ => 1) = some 1 := by decide
+example : execCmpZ true 4 .gt (.bi (.si (-3))) (.ex (.bin .mul (.zv 0) (.zv 1))) (fun l => if l = .v 0 then -2 else 2) = some 1 := by decide
+
 end Mpir.Cxx
